@@ -21,6 +21,9 @@ func init() {
 			{ID: "C07.R2", Doc: "scalars: result == (own type AND recv.payload == other.payload) as a truth table; the nil wrapper: result == own type", Run: func(c *Ctx) {}},
 			{ID: "C07.R3", Doc: "containers: true only after own-type test, length equality and the complete loop over the receiver's spine comparing recv[k].isEqual(other[k]); false on first mismatch", Run: func(c *Ctx) {}},
 			{ID: "C07.R4", Doc: "Equals delegates to isEqual of the receiver with its argument unchanged", Run: c07R4},
+			{ID: "C07.R6", Doc: "isEqual calls isEqual of every element: the From-constructors store a field in every slot, one conversion per entry (= C12.R2), so no element is a nil interface", Run: func(c *Ctx) {
+				c.R.Floor("C07.R6", runAs(c, "C07.R6", c12R2, nil), 14)
+			}},
 			{ID: "C07.R5", Doc: "PURE: isEqual and Equals write nothing", Run: func(c *Ctx) {
 				var names []string
 				for _, t := range c.Inv().Impls {
